@@ -27,7 +27,7 @@ def walk_sends(sc, obs):
 
 
 # ------------------------------------------------------------------ C01
-K_C01 = dict(bound_refs=0.5, attr_unknown=0.5, user_tna=0.3, any_shared_event=0.5, exc_classes=0.2, wrapped_coros=0.5, falsy_model=0.08, stop_iter=0.25, any_group=0.2, callable_refs=0.15, state_decor=0.2, decor=0.5, multi_cand=0.75, guards=0.7, guard_max=3, validators=0.3, raises=0.08, sends=0.04,
+K_C01 = dict(cb_writes=0.04, extend_inherit=0.25, late_allow=0.2, bound_refs=0.5, attr_unknown=0.5, user_tna=0.3, any_shared_event=0.5, exc_classes=0.2, wrapped_coros=0.5, falsy_model=0.08, stop_iter=0.25, any_group=0.2, callable_refs=0.15, state_decor=0.2, decor=0.5, multi_cand=0.75, guards=0.7, guard_max=3, validators=0.3, raises=0.08, sends=0.04,
              unknown_ev=0.15, allow=0.4, rtc_false=0.2, p_async=0.3, cbs=0.15, extra_trans=(1, 8),
              ops=(3, 16), p_write=0.05)
 
@@ -60,7 +60,7 @@ def nontrivial_C01(sc, obs):
 
 
 # ------------------------------------------------------------------ C02
-K_C02 = dict(extend_inherit=0.2, bound_refs=0.5, eqgroups=0.3, alias_inherit=0.4, inst_hooks=0.15, wrapped_coros=0.4, falsy_model=0.08, any_group=0.15, callable_refs=0.2, state_decor=0.3, decor=0.6, yields=0.3, cbs=0.6, cb_max=3, conv=0.35, listeners=(0, 3), multi_prov=0.3, self_loop=0.3, internal=0.5,
+K_C02 = dict(cb_writes=0.06, extend_inherit=0.2, bound_refs=0.5, eqgroups=0.3, alias_inherit=0.4, inst_hooks=0.15, wrapped_coros=0.4, falsy_model=0.08, any_group=0.15, callable_refs=0.2, state_decor=0.3, decor=0.6, yields=0.3, cbs=0.6, cb_max=3, conv=0.35, listeners=(0, 3), multi_prov=0.3, self_loop=0.3, internal=0.5,
              multi_event=0.5, p_async=0.3, sends=0.03, guards=0.4, validators=0.3, share_groups=0.3,
              ops=(2, 10))
 
@@ -99,8 +99,18 @@ def extra_C02(rng, tier):
         ops += [op for op in sc["ops"][1:] if op[0] == "send"][:3]
         sc["ops"] = ops
         out.append(sc)
+    # small machines, mostly self / internal transitions with one callback per group, whose callbacks often
+    # assign the state themselves through the low-level API (both engines): the engine's own assignment
+    # after `on` wins, so enter / after see the target and the machine ends in it
+    m = 320 if tier == "quick" else 4000
+    for _ in range(m):
+        out.append(enggen.gen_scenario(rng, dict(K_C02, nmax=3, evmax=2, extra_trans=(0, 3), self_loop=0.8, internal=0.85, cbs=0.8,
+                                                 cb_max=1, conv=0.08, listeners=(0, 1), multi_prov=0.0, guards=0.1, validators=0.1,
+                                                 cb_writes=0.3, p_async=0.6, sends=0.0, ops=(4, 10), scripts=(1, 3), yields=0.0,
+                                                 unknown_ev=0.0, extend_inherit=0.0, alias_inherit=0.0)))
     return out, ("two-event transitions fired once, then a listener with event-named callbacks attached with "
-                 "add_listener, then fired through the other event and the first again")
+                 "add_listener, then fired through the other event and the first again (%d); small machines with "
+                 "self / internal transitions whose callbacks assign the state through the low-level API (%d)" % (n, m))
 
 
 def post_C02(sc, rng):
@@ -148,7 +158,7 @@ def nontrivial_C02(sc, obs):
 
 
 # ------------------------------------------------------------------ C03
-K_C03 = dict(exc_classes=0.2, odd_values=0.15, p_clone=0.1, hosted=0.15, sends=0.4, send_budget=12, rtc_false=0.3, cbs=0.6, conv=0.2, p_async=0.25, guards=0.2,
+K_C03 = dict(cb_writes=0.04, explicit_activate=0.5, positional_ctor=0.3, exc_classes=0.2, odd_values=0.15, p_clone=0.1, hosted=0.15, sends=0.4, send_budget=12, rtc_false=0.3, cbs=0.6, conv=0.2, p_async=0.25, guards=0.2,
              ops=(1, 6), multi_prov=0.1, scripts=(1, 4))
 
 
@@ -191,7 +201,7 @@ def nontrivial_C03(sc, obs):
 
 
 # ------------------------------------------------------------------ C04
-K_C04 = dict(exc_classes=0.45, attr_guards=0.2, prop_guards=0.8, user_tna=0.35, base_exc=0.3, stop_iter=0.35, hosted=0.1, sends=0.3, send_budget=8, cbs=0.5, conv=0.2, validators=0.3, guards=0.4, rtc_false=0.25,
+K_C04 = dict(cb_writes=0.04, late_allow=0.3, exc_classes=0.45, attr_guards=0.2, prop_guards=0.8, user_tna=0.35, base_exc=0.3, stop_iter=0.35, hosted=0.1, sends=0.3, send_budget=8, cbs=0.5, conv=0.2, validators=0.3, guards=0.4, rtc_false=0.25,
              p_async=0.3, ops=(2, 5), raises=0.0, guard_raise=0.0, multi_prov=0.15)
 
 
@@ -238,7 +248,7 @@ def nontrivial_C04(sc, obs):
 
 
 # ------------------------------------------------------------------ C11
-K_C11 = dict(id_values=0.4, recording_model=0.3, falsy_model=0.12, hosted=0.1, p_clone=0.12, resume=0.45, start=0.3, p_activate=0.2, p_construct=0.2, p_async=0.35, sends=0.15, cbs=0.5,
+K_C11 = dict(explicit_activate=0.3, positional_ctor=0.2, id_values=0.4, recording_model=0.3, falsy_model=0.12, hosted=0.1, p_clone=0.12, resume=0.45, start=0.3, p_activate=0.2, p_construct=0.2, p_async=0.35, sends=0.15, cbs=0.5,
              conv=0.3, p_values=0.3, ops=(1, 8), rtc_false=0.2, decoys=0.35)
 
 
@@ -251,7 +261,7 @@ def nontrivial_C11(sc, obs):
 
 
 # ------------------------------------------------------------------ C14
-K_C14 = dict(extend_inherit=0.3, bound_refs=0.5, eqgroups=0.5, inst_hooks=0.1, odd_values=0.15, p_clone=0.06, wrapped_coros=0.4, any_group=0.2, callable_refs=0.2, state_decor=0.2, decor=0.6, cbs=0.8, cb_max=3, conv=0.35, ret_none=0.25, self_loop=0.3, internal=0.5, multi_event=0.5,
+K_C14 = dict(sig_attr=0.2, extend_inherit=0.3, bound_refs=0.5, eqgroups=0.5, inst_hooks=0.1, odd_values=0.15, p_clone=0.06, wrapped_coros=0.4, any_group=0.2, callable_refs=0.2, state_decor=0.2, decor=0.6, cbs=0.8, cb_max=3, conv=0.35, ret_none=0.25, self_loop=0.3, internal=0.5, multi_event=0.5,
              p_async=0.3, sends=0.05, guards=0.3, listeners=(0, 2), multi_prov=0.3, allow=0.4, share_groups=0.3)
 
 
@@ -283,9 +293,13 @@ SPECS = {
                                            ("cond", "limit >= remaining", False), ("cond", "not remaining", True),
                                            ("cond", "limit and remaining", True), ("unless", "remaining != limit", False))]),
     "C11": dict(knobs=K_C11, nontrivial=nontrivial_C11, n=(2000, 30000), probes=[{"probe": "threads_overlap"}, {"probe": "mixin_cooperative_init", "bind": True},
-                        {"probe": "mixin_cooperative_init", "bind": False}]),
+                        {"probe": "mixin_cooperative_init", "bind": False}]
+                + [{"probe": "default_model_custom_field", "field": f_, "start": s_, "coro": c_}
+                   for f_ in ("phase", "state") for s_ in (False, True) for c_ in (False, True)]),
     "C14": dict(knobs=K_C14, nontrivial=nontrivial_C14, n=(2000, 30000),
-                probes=[{"probe": "event_name_callback", "rtc": True}, {"probe": "event_name_callback", "rtc": False}]),
+                probes=[{"probe": "event_name_callback", "rtc": True}, {"probe": "event_name_callback", "rtc": False},
+                        {"probe": "state_named_like_callback", "values": True},
+                        {"probe": "state_named_like_callback", "values": False}]),
 }
 
 
@@ -598,7 +612,79 @@ def probe_mixin_cooperative_init(sc):
     return {"probe": sc["probe"], "bad": bad}
 
 
-PROBES = {"mixin_cooperative_init": probe_mixin_cooperative_init, "expr_guard_raises": probe_expr_guard_raises, "add_listener_in_callback": probe_add_listener_in_callback, "same_class_listener": probe_same_class_listener, "event_name_callback": probe_event_name_callback,
+def probe_state_named_like_callback(sc):
+    """C14: a state whose id is spelled like a callback name of an event (state `on_hold`, event `hold`; state
+    `before_ship`, event `ship`) is a state, not a callback: the events return None (nothing else contributes),
+    with default and with explicit state values"""
+    import warnings
+    from statemachine import State, StateMachine
+    kw = (lambda v: {"value": v}) if sc["values"] else (lambda v: {})
+
+    class M(StateMachine):
+        idle = State(initial=True, **kw(1))
+        on_hold = State(**kw(2))
+        before_ship = State(**kw(3))
+        hold = idle.to(on_hold)
+        ship = on_hold.to(before_ship)
+        back = before_ship.to(idle)
+    bad = []
+    with warnings.catch_warnings():
+        warnings.simplefilter("ignore")
+        sm = M()
+        for ev, want in (("hold", "on_hold"), ("ship", "before_ship"), ("back", "idle")):
+            try:
+                r = sm.send(ev)
+            except Exception as e:  # noqa: BLE001
+                bad.append(f"{ev}: {e!r}")
+                break
+            if r is not None:
+                bad.append(f"{ev} returned {r!r}")
+            if sm.current_state.id != want:
+                bad.append(f"{ev}: state {sm.current_state.id}")
+    return {"probe": sc["probe"], "bad": bad}
+
+
+def probe_default_model_custom_field(sc):
+    """C11: a machine created without a model of the user's (the library supplies one) and with a state_field of
+    the user's choosing is activated like any other: the initial state (or start_value's) is entered once and
+    stored under that field name"""
+    import warnings
+    from statemachine import State, StateMachine
+    calls = []
+    body = {"a": State(initial=True), "b": State()}
+    body["go"] = body["a"].to(body["b"]) | body["b"].to(body["a"])
+    if sc["coro"]:
+        async def on_enter_a(self):
+            calls.append("enter_a")
+    else:
+        def on_enter_a(self):
+            calls.append("enter_a")
+    body["on_enter_a"] = on_enter_a
+    bad = []
+    with warnings.catch_warnings():
+        warnings.simplefilter("ignore")
+        M = type(StateMachine)("ProbeDefaultModel" + ("Coro" if sc["coro"] else ""), (StateMachine,), body)
+        try:
+            kw = {"state_field": sc["field"]}
+            if sc["start"]:
+                kw["start_value"] = "b"
+            sm = M(**kw)
+            if sc["coro"]:
+                sm.activate_initial_state()
+            want = "b" if sc["start"] else "a"
+            if sm.current_state.id != want or getattr(sm.model, sc["field"], None) != want:
+                bad.append(f"state {sm.current_state.id}, model.{sc['field']} = {getattr(sm.model, sc['field'], None)!r}")
+            if calls != ([] if sc["start"] else ["enter_a"]):
+                bad.append(f"enter callbacks: {calls}")
+            sm.send("go")
+            if getattr(sm.model, sc["field"], None) != ("a" if sc["start"] else "b"):
+                bad.append("the next event did not store its target")
+        except Exception as e:  # noqa: BLE001
+            bad.append(repr(e))
+    return {"probe": sc["probe"], "bad": bad}
+
+
+PROBES = {"default_model_custom_field": probe_default_model_custom_field, "state_named_like_callback": probe_state_named_like_callback, "mixin_cooperative_init": probe_mixin_cooperative_init, "expr_guard_raises": probe_expr_guard_raises, "add_listener_in_callback": probe_add_listener_in_callback, "same_class_listener": probe_same_class_listener, "event_name_callback": probe_event_name_callback,
           "threads_overlap": probe_threads_overlap}
 
 
@@ -662,7 +748,9 @@ def install(prop, g):
                              ("history continues on a deep copy", any(op[0] == "clone" for op in s["ops"])),
                              ("late listeners", s.get("late")), ("falsy model", s.get("falsy_model")),
                              ("StopIteration-class exceptions", s.get("stop_iter")),
-                             ("decoy instances", s.get("decoys"))):
+                             ("decoy instances", s.get("decoys")),
+                             ("a callback assigns the state itself (low-level API)",
+                              any(a_[0] == "write" for row in s["tbl"] for s_ in row[3] for a_ in s_["a"]))):
                 if on:
                     h["feature: " + feat] += 1
         oh = collections.Counter()
